@@ -110,3 +110,98 @@ func (c *Ctx) panicSafeLocksRule(rule string) {
 	r.Floor(rule, "lock acquisitions in client and state", nDeferred+nExplicit, 10)
 	r.Note("%s: %d acquisitions followed at once by a deferred unlock, %d released explicitly, %d panic obligations under explicit holds", rule, nDeferred, nExplicit, nOb)
 }
+
+// handlerSpawnsRule: a goroutine started from handler code begins with an
+// empty stack, so the recovery hook deferred around the handler does not cover
+// it. Every go statement in the code reachable from the built-in handlers
+// (by plain calls) must therefore start the dispatch machinery (whose own
+// frames are examined elsewhere), a function that defers the recovery hook
+// itself before doing anything else, or a function in which nothing can panic:
+// all panic obligations of it and its callees proved, and no call into code
+// the library does not own (interfaces, function values).
+func (c *Ctx) handlerSpawnsRule(rule string) {
+	r, a := c.R, c.A
+	var roots []*ssa.Function
+	var names []string
+	for k := range a.IntTable {
+		names = append(names, "i:"+k)
+	}
+	for k := range a.StTable {
+		names = append(names, "s:"+k)
+	}
+	sort.Strings(names)
+	for _, k := range names {
+		if k[0] == 'i' {
+			roots = append(roots, a.IntTable[k[2:]])
+		} else {
+			roots = append(roots, a.StTable[k[2:]])
+		}
+	}
+	region := c.Closure(roots, func(from *ssa.Function, e Edge) bool {
+		return e.Kind != EdgeGo && !e.Site.Common().IsInvoke() && e.Callee.Package() == c.Client && e.Callee != a.ConnDispatch && e.Callee != a.SetDispatch
+	})
+	p := c.NewProver()
+	n := 0
+	for _, fn := range region.Order {
+		if !c.InModuleFn(fn) {
+			continue
+		}
+		for _, cs := range CallSites(fn) {
+			g, isGo := cs.(*ssa.Go)
+			if !isGo {
+				continue
+			}
+			n++
+			edges := c.Callees(g)
+			ok, why := len(edges) > 0, "target not resolved"
+			for _, e := range edges {
+				t := e.Callee
+				if t == nil || !c.InModuleFn(t) {
+					ok, why = false, "spawns code outside the module or an unresolved function value"
+					continue
+				}
+				if t == a.SetDispatch || t == a.ConnDispatch {
+					why = "starts the dispatch machinery"
+					continue
+				}
+				if ds := c.recoverDefers(t); len(ds) > 0 && instrIndex(ds[0]) <= 3 && ds[0].Block() == t.Blocks[0] {
+					why = "the goroutine defers the recovery hook first"
+					continue
+				}
+				// nothing in it may panic
+				sub := c.Closure([]*ssa.Function{t}, func(from *ssa.Function, e2 Edge) bool {
+					return e2.Kind != EdgeGo && e2.Callee.Package() != c.Logging
+				})
+				for _, f := range sub.Order {
+					if !c.InModuleFn(f) || f.Package() == c.Logging {
+						continue
+					}
+					for _, ob := range c.panicObligations(f) {
+						if okD, whyD := c.discharge(p, ob); !okD {
+							ok, why = false, ob.Kind+" at "+c.InstrPos(ob.In)+" can panic outside any recovered frame: "+whyD
+						}
+					}
+					for _, x := range CallSites(f) {
+						cc := x.Common()
+						if _, isB := cc.Value.(*ssa.Builtin); isB {
+							continue
+						}
+						if cc.IsInvoke() && !c.inModule(cc.Method.Pkg()) {
+							ok, why = false, "calls "+cc.Method.Name()+" on a value the library does not own ("+cc.Value.Type().String()+") at "+c.InstrPos(x)+" outside any recovered frame"
+						}
+						if !cc.IsInvoke() && cc.StaticCallee() == nil {
+							if ts := c.dynamicTargets(cc.Value, f, 0); len(ts) == 0 {
+								ok, why = false, "calls a function value at "+c.InstrPos(x)+" outside any recovered frame"
+							}
+						}
+					}
+				}
+				if ok && why == "target not resolved" {
+					why = "nothing in the spawned function can panic"
+				}
+			}
+			r.Add(rule, fmt.Sprintf("handler-spawn:%s#%d", c.FuncKey(fn), n), c.InstrPos(g), c.FuncKey(fn), "a goroutine started from built-in handler code cannot panic unrecovered", ok, why)
+		}
+	}
+	r.Note("%s: %d go statements in code reachable from the built-in handlers by plain calls", rule, n)
+}
